@@ -99,12 +99,16 @@ class DocRunner:
         else:
             path = corpus.samples_dir() / source["name"]
             data = path.read_bytes()
+            if source.get("decor"):
+                data = corpus.decorate(data)
+                self.labels.add("comments-and-PIs")
             how = source["how"]
             if how == "path":
                 # private copy: the check never works on the repository's files in place
                 p = self.scratch / f"src{self.n}-{source['name']}"
                 p.write_bytes(data)
                 doc = Document(str(p))
+                self.origin = ("zip", p)
             elif how == "bytesio":
                 doc = Document(io.BytesIO(data))
             else:  # folder written by an independent unzip
@@ -119,6 +123,7 @@ class DocRunner:
                             target.parent.mkdir(parents=True, exist_ok=True)
                             target.write_bytes(z.read(info.filename))
                 doc = Document(str(folder))
+                self.origin = ("folder", folder)
             infos, parts = odfread.read_zip(data)
             model = {norm(k): v for k, v in parts.items()}
         if model is None:
@@ -296,6 +301,7 @@ class DocRunner:
 
     set_xml = None
     reuse_buf = None
+    origin = None  # (packaging, path) the current document was opened from, when it was opened from the file system
 
     def op_merge_styles(self, op):
         from odfdo import Document, Element
@@ -347,6 +353,7 @@ class DocRunner:
 
     def op_clone(self, op):
         self.doc = self.doc.clone
+        self.origin = None  # a clone is not tied to the file of the original
         self.labels.add("clone")
 
     # ---- save + judge ---------------------------------------------------------------
@@ -354,8 +361,11 @@ class DocRunner:
         from odfdo import Document
 
         packaging = op["packaging"]
+        if op.get("target") == "same" and self.origin and packaging != "xml":
+            packaging = self.origin[0]  # in place = in the packaging it was opened in
         self.saves += 1
         self.n += 1
+        new_origin = None
         nontrivial = self.lazy and self.unread and bool(self.edited)
         if packaging == "zip" and op.get("target") == "bytesio-reuse":
             # the same BytesIO object receives every save of this history (and is the source when reopened)
@@ -378,18 +388,36 @@ class DocRunner:
             data = buf.getvalue()
             reopen = lambda: Document(io.BytesIO(data))  # noqa: E731
             saved = self._read_zip(data)
+        elif packaging == "zip" and op.get("target") == "same" and self.origin and self.origin[0] == "zip":
+            # saved in place, over the file the document was opened from
+            p = self.origin[1]
+            self.doc.save()
+            data = p.read_bytes()
+            reopen = lambda: Document(str(p))  # noqa: E731
+            saved = self._read_zip(data)
+            new_origin = ("zip", p)
+            self.labels.add("saved-in-place-zip")
+        elif packaging == "folder" and op.get("target") == "same" and self.origin and self.origin[0] == "folder":
+            folder = self.origin[1]
+            self.doc.save(packaging="folder", pretty=False)
+            saved = {"infos": None, "parts": {k: v for k, v in odfread.read_folder(folder).items()}, "raw": None}
+            reopen = lambda: Document(str(folder))  # noqa: E731
+            new_origin = ("folder", folder)
+            self.labels.add("saved-in-place-folder")
         elif packaging == "zip":
             p = self.scratch / f"out{self.n}.od{_ext(self.doc)}"
             self.doc.save(str(p))
             data = p.read_bytes()
             reopen = lambda: Document(str(p))  # noqa: E731
             saved = self._read_zip(data)
+            new_origin = ("zip", p)
         elif packaging == "folder":
             p = self.scratch / f"out{self.n}"
             self.doc.save(str(p), packaging="folder", pretty=False)
             folder = Path(str(p) + ".folder")
             saved = {"infos": None, "parts": {k: v for k, v in odfread.read_folder(folder).items()}, "raw": None}
             reopen = lambda: Document(str(folder))  # noqa: E731
+            new_origin = ("folder", folder)
         else:
             buf = io.BytesIO()
             self.doc.save(buf, packaging="xml", pretty=bool(op.get("pretty")))
@@ -402,6 +430,7 @@ class DocRunner:
             doc2 = reopen()
             self.judge_reopened(doc2, saved)
             self.doc = doc2
+            self.origin = new_origin
             self.labels.add("reopened")
             self.lazy = packaging == "zip" and op.get("target") != "bytesio"
             self.unread = True
@@ -580,6 +609,8 @@ def sources(ctx, big=False):
             continue
         for how in ("path", "bytesio", "folder"):
             out.append({"kind": "sample", "name": p.name, "how": how})
+        if p.stat().st_size < 30_000:
+            out.append({"kind": "sample", "name": p.name, "how": ("path", "bytesio", "folder")[len(out) % 3], "decor": True})
         if p.suffix in (".odt", ".ods", ".odp", ".odg", ".ott", ".ots", ".otp", ".otg") and p.stat().st_size < 40_000:
             out.append({"kind": "new", "name": p.name, "how": "path" if len(out) % 2 else "bytesio"})
     return out
@@ -651,10 +682,36 @@ def make_doc_machine(ctx, prop, extra_ops=()):
             def clone(self):
                 self.go({"op": "clone"})
 
-        @rule(packaging=st.sampled_from(["zip", "zip", "folder", "xml"] if prop == "C03" else ["zip"]),
-              tgt=st.sampled_from(["path", "bytesio", "bytesio-reuse", "bytesio-reuse"]), reopen=st.booleans(), pretty=st.booleans())
+        @rule(packaging=st.sampled_from(["zip", "zip", "folder", "xml"] if prop == "C03" else ["zip", "zip", "zip", "folder"]),
+              tgt=st.sampled_from(["path", "bytesio", "bytesio-reuse", "bytesio-reuse", "same", "same"]), reopen=st.booleans(), pretty=st.booleans())
         def save(self, packaging, tgt, reopen, pretty):
             self.go({"op": "save", "packaging": packaging, "target": tgt, "reopen": reopen, "pretty": pretty})
+
+        @rule(pre=st.sampled_from(["del_part", "del_part", "add_file", "paragraph", "none"]), i=st.integers(0, 9), c=st.integers(0, 3),
+              post=st.sampled_from(["zip-bytesio", "zip-path", "same", "folder"]))
+        def inplace_cycle(self, pre, i, c, post):
+            """edit, save over the file/folder the document came from, reopen it, save again: four steps a uniform choice
+            of rules seldom lines up (only meaningful for documents opened from the file system)"""
+            r = self.r
+            if r is None or r.dead or not r.origin:
+                return
+            if pre == "del_part":
+                self.go({"op": "del_part", "i": i, "pick": "any"})
+            elif pre == "add_file":
+                self.go({"op": "add_file", "c": c, "path": False, "frame": False})
+            elif pre == "paragraph":
+                self.go({"op": "paragraph"})
+            self.go({"op": "save", "packaging": r.origin[0], "target": "same", "reopen": True, "pretty": False})
+            if r.dead:
+                return
+            if post == "zip-bytesio":
+                self.go({"op": "save", "packaging": "zip", "target": "bytesio", "reopen": True, "pretty": False})
+            elif post == "zip-path":
+                self.go({"op": "save", "packaging": "zip", "target": "path", "reopen": False, "pretty": False})
+            elif post == "same":
+                self.go({"op": "save", "packaging": "zip", "target": "same", "reopen": True, "pretty": False})
+            elif prop == "C03":
+                self.go({"op": "save", "packaging": "folder", "target": "path", "reopen": True, "pretty": False})
 
         def teardown(self):
             r = self.r
